@@ -812,7 +812,10 @@ func (s *session) replayCS() string {
 		n++
 		return nil
 	})
-	if bad != "" || err != nil {
+	if err != nil && bad == "" {
+		return "err"
+	}
+	if bad != "" {
 		return "mismatch " + bad
 	}
 	return fmt.Sprintf("ok n=%d hashes=%d", n, hashes)
